@@ -2,6 +2,7 @@ package checks
 
 import (
 	"fmt"
+	"sort"
 	"strings"
 	"testing"
 	"time"
@@ -224,6 +225,30 @@ func TestC08(t *testing.T) {
 				}
 			})
 			c.Ev.MarkExhaustive(fmt.Sprintf("every one of %d statement kinds in every one of %d kinds of position, each statement on lines of its own", len(stmtKinds()), len(stmtPositions())))
+		})
+		// a name that begins like a keyword or a built-in (or is one doubled, or one followed by digits) is a name
+		c.Sub("keyword-prefixed-names", func(s *Sub) {
+			var words []string
+			for w := range bn.Keywords {
+				words = append(words, w)
+			}
+			sort.Strings(words)
+			words = append(words, bn.Builtins...)
+			var k int64
+			for _, w := range words {
+				for _, suffix := range []string{"x", "_", "\u09e8", "_\u0997\u09a3\u09a8\u09be", "1", w, "\u09be", "_" + w} {
+					k++
+					if !c.Mine(k) {
+						continue
+					}
+					name := w + suffix
+					if _, kw := bn.Keywords[name]; kw || bn.IsBuiltin(name) {
+						continue
+					}
+					c.c08Text(s, "keyword-prefixed-names", bn.KwVar+" "+name+" = 1;\n"+bn.KwPrint+" "+name+" + 1;\n"+bn.KwFun+" f_"+name+"("+name+") { "+bn.KwReturn+" "+name+"; }\n"+bn.KwPrint+" {"+name+": 2}."+name+";\n", true)
+				}
+			}
+			c.Ev.MarkExhaustive(fmt.Sprintf("every keyword and built-in name (%d) x 8 suffixes, used as variable, parameter and property name", len(words)))
 		})
 		c.Sub("lines-after-multiline-tokens", func(s *Sub) {
 			if c.Shard != 0 {
